@@ -5,7 +5,7 @@
 Require Extraction.
 Require Import ExtrOcamlBasic.
 From Coq Require Import ZArith.
-From BE Require Model.Timer Model.Regs Model.Decode Model.Lcd Model.Kbd Model.Sched Model.MemBus Model.IL Model.Lift Model.Emu Model.Static Model.Spec Model.AsmLayout.
+From BE Require Model.Timer Model.Regs Model.Decode Model.Lcd Model.Kbd Model.Sched Model.MemBus Model.IL Model.Lift Model.Emu Model.Static Model.Spec Model.AsmLayout Model.Irq.
 Extraction Language OCaml.
 
 Definition timer_py_run := Timer.py_run.
@@ -58,6 +58,9 @@ Definition st_den (i : Decode.instr) (s : IL.mstate) :=
 Definition st_sort_uniq := Emu.sort_uniq.
 
 Definition sp_exec := Spec.spec_exec.
+Definition irq_deliver := Irq.irq_deliver.
+Definition irq_gate := Irq.irq_gate.
+Definition irq_mem (s : IL.mstate) (a : BinNums.Z) := IL.mem s a.
 Definition asm_layout := AsmLayout.assemble_layout.
 Definition ts_safe := Emu.instr_temps_safe.
 
@@ -70,4 +73,4 @@ Extraction "Extract/model.ml"
   sched_spawn_all sched_drive
   mem_py_run mem_rs_run mem_card_slot
   il_lift il_fetch il_set_pc il_mk_state il_exec_at il_steps il_obs_regs il_obs_writes il_rlog il_wlog il_halted il_temps
-  st_analyze st_render_ops st_den st_sort_uniq sp_exec ts_safe asm_layout.
+  st_analyze st_render_ops st_den st_sort_uniq sp_exec ts_safe asm_layout irq_deliver irq_gate irq_mem.
